@@ -438,6 +438,47 @@ def _table(ctx) -> None:
     ctx.ob("f.table-delegation", f, "shape-guards", not missing and n_paired >= 1,
            f"{n_paired} position-paired stores, each after a raising length comparison with the target columns", f.node,
            message="; ".join(missing[:2]) or "Table.__setitem__ has no row / table / list assignment form any more")
+    # a column given BY NAME is resolved like t[name]: the exact stored name first (first occurrence), only then the accessor names -
+    # otherwise t[0, 'first name'] = x is "not found" and, with columns 'A' and 'a', t[0, 'a'] = x lands in 'A'
+    from ..symx import NONE as SNONE
+    MAP = ("call", ("attr", SELF, "_current_column_map"), (), ())
+    und_ = ("attr", SELF, "_underlying")
+
+    def exact_search(t, x) -> bool:
+        """t is the position of the first column whose stored name == x (a helper call verified below, or the search in line)"""
+        if t == ("call", ("attr", SELF, "_stored_name_index"), (x,), ()):
+            return True
+        if t[0] == "first" and t[3] == SNONE:
+            lp = it.loops[t[1]]
+            dom = lp.domain if lp.domain is not None else lp.iter
+            el = ("elem", und_, t[1])
+            eq = (("cmp", "Eq", ("attr", el, "_name"), x), True)
+            return dom == und_ and t[2] == ("idx", t[1]) and [tuple(flatten_conds(c)) for c in lp.found] in ([(eq,)],)
+        return False
+    nm_problems = []
+    n_lookups = 0
+    for e in it.events:
+        if e.kind == "call" and e.term[1] == ("attr", MAP, "get") and e.term[2]:
+            x = e.term[2][0]
+            base = x[1][1] if (x[0] == "call" and x[1][0] == "attr" and x[1][2] == "lower" and not x[2]) else x
+            n_lookups += 1
+            if not any(pol and t[0] == "cmp" and t[1] == "Is" and t[3] == SNONE and exact_search(t[2], base) for t, pol in flatten_conds(e.conds)):
+                nm_problems.append(f"`{show(e.term, it)[:50]}` (line {getattr(e.node, 'lineno', '?')}) consults the accessor map without having "
+                                   f"looked for the exactly named column first")
+    hp = prog.cls("Table").methods.get("_stored_name_index")
+    if hp is not None:
+        from ..symx import Interp as _SI
+        hi = _SI(prog, hp)
+        HS, HN = ("param", hp.params[0]), ("param", hp.params[1])
+        hel = lambda L: ("elem", ("attr", HS, "_underlying"), L)
+        okh = len(hi.returns) == 2 and not hi.falls_through and hi.returns[1] == ((), SNONE) and hi.returns[0][1][0] == "idx" \
+            and hi.returns[0][0] == ((("cmp", "Eq", ("attr", hel(hi.returns[0][1][1]), "_name"), HN), True),)
+        if not okh:
+            nm_problems.append("_stored_name_index is not `first position whose stored name == name, else None`")
+    seen_ = set()
+    nm_problems = [p_ for p_ in nm_problems if not (p_ in seen_ or seen_.add(p_))]
+    ctx.ob("f.table-delegation", f, "exact-name-first", not nm_problems and n_lookups >= 1,
+           f"{n_lookups} accessor-map lookups, each after the exact stored-name search", f.node, message="; ".join(nm_problems[:2]))
     # unsupported values raise
     fin = [e for e in it.events if e.kind == "raise" and e.term[0] == "call" and e.term[1] == ("name", "SerifTypeError")
            and any(x == VALUE for t, pol in flatten_conds(e.conds) for x in subterms(t))
@@ -448,6 +489,10 @@ def _table(ctx) -> None:
 
 _V, _T = "vector", "table"
 MUTANTS = [
+    dict(id="table-setitem-name-via-map-only", module="table",
+         old="			idx = self._stored_name_index(col_spec)\n			if idx is None:\n				column_map = self._current_column_map()\n				idx = column_map.get(col_spec) or column_map.get(col_spec.lower())",
+         new="			column_map = self._current_column_map()\n			idx = column_map.get(col_spec) or column_map.get(col_spec.lower())",
+         rules=["f.table-delegation"], desc="the defect repaired by fix 63e9640"),
     dict(id="slice-length-unclamped", module="typeutils",
          old="    return max(0, (stop - start + (step - (1 if step > 0 else -1))) // step)",
          new="    return (stop - start + (step - (1 if step > 0 else -1))) // step", rules=["g.slice-length"],
